@@ -47,8 +47,53 @@ def _kill_children():
             pass
 
 
+def _isolated(fn, *a):
+    """run fn(*a) in a forked child and hand back its (picklable) result.  The symbolic run executes the real code on symbolic values and under
+    stand-ins; code that keeps state in a module-level container (a cache) would keep those values, and the native runs that follow in this process
+    (sampling, differential, replay of counter-models) would meet them: a tester's hand-written cache made a later data harness fail on values the
+    symbolic run had left behind.  The child takes that state with it."""
+    import pickle
+    r, w = os.pipe()
+    pid = os.fork()
+    if pid == 0:
+        code = 0
+        try:
+            os.close(r)
+            try:
+                payload = pickle.dumps(("ok", fn(*a)))
+            except BaseException:
+                payload = pickle.dumps(("err", traceback.format_exc()))
+            with os.fdopen(w, "wb") as fh:
+                fh.write(payload)
+        except BaseException:
+            code = 1
+        finally:
+            os._exit(code)
+    os.close(w)
+    with os.fdopen(r, "rb") as fh:
+        data = fh.read()
+    os.waitpid(pid, 0)
+    if not data:
+        raise RuntimeError("the isolated symbolic run ended without a result")
+    kind, val = pickle.loads(data)
+    if kind == "err":
+        raise RuntimeError("isolated symbolic run failed:\n" + val)
+    return val
+
+
 def _worker(args):
     prop, ident, repo, tier, seed = args
+    try:        # an address-space limit per harness process: a runaway computation ends in a MemoryError of that harness (checker error), not in the
+        import resource      # kernel's OOM killer taking a worker away from under the pool (which would then wait for ever)
+        cap = int(float(os.environ.get("VCHECK_MEM_GB", "32")) * (1 << 30))
+        soft, hard = resource.getrlimit(resource.RLIMIT_AS)
+        from pyvc import api as _api
+        _kind = [x for x in _api.HARNESSES[prop] if x.ident == ident][0].kind
+        # (not for the Lean lemmas: the Lean runtime reserves a large address range up front and fails under such a limit)
+        if _kind != "lemma" and (hard == resource.RLIM_INFINITY or cap < hard):
+            resource.setrlimit(resource.RLIMIT_AS, (cap, hard))
+    except Exception:
+        pass
     from pyvc import api, run
     out = {"ident": ident}
     try:
@@ -94,7 +139,7 @@ def _worker(args):
                                "interpreted": {}, "seconds": time.time() - t0, "functions": h.functions}
             out["concrete"] = None
             return out
-        out["symbolic"] = run.run_symbolic(h, repo)
+        out["symbolic"] = _isolated(run.run_symbolic, h, repo)
         n = h.samples if tier == "quick" else h.samples * 25
         seed_h = int(hashlib.sha256((ident + str(seed)).encode()).hexdigest()[:8], 16)
         out["concrete"] = run.sample_concrete(h, n, seed_h, repo, differential=False) if n else None
@@ -194,7 +239,7 @@ def main(argv=None):
     results = []
     if a.jobs > 1 and len(jobs) > 1:
         ctx = mp.get_context("fork")
-        with ctx.Pool(min(a.jobs, len(jobs)), maxtasksperchild=4) as pool:
+        with ctx.Pool(min(a.jobs, len(jobs)), maxtasksperchild=1) as pool:      # a fresh process per harness: no state of the code under test is carried over
             for r in pool.imap_unordered(_worker, jobs):
                 results.append(r)
     else:
